@@ -445,6 +445,65 @@ fn i6() -> Vec<Case> {
 /// behind: the loop goes on with the right element (continue) or ends (break), the loop's hidden iterator
 /// and the locals declared before and after the loop are where the source says, for every kind of iterable
 /// and every element position.
+/// I8: every kind of callable as a callback.  map, filter and reduce take whatever can be called: a function
+/// of the program, a lambda, a built-in function (`type`), a bound built-in method (`acc.push`), a bound
+/// method of an instance, a constructor, a static method - over every kind of iterable, consumed by collect
+/// and by `for`.
+fn i8(thorough: bool) -> Vec<Case> {
+    let mut out = Vec::new();
+    let decls = || -> Vec<Stmt> {
+        vec![
+            class_stmt(
+                "Box",
+                None,
+                None,
+                vec![
+                    method(FnKind::Ctor, "new", &["v"], vec![expr_stmt(set(Expr::SelfRef, "v", var("v")))]),
+                    method(FnKind::Method, "wrap", &["e"], vec![ret(Expr::TupleLit(vec![get(Expr::SelfRef, "v"), var("e")]))]),
+                    method(FnKind::Method, "truthy", &["e"], vec![ret(bin(BinOp::Ne, var("e"), get(Expr::SelfRef, "v")))]),
+                    method(FnKind::Method, "join", &["a", "e"], vec![ret(Expr::VecLit(vec![var("a"), var("e")]))]),
+                    method(FnKind::Static, "twice", &["x"], vec![ret(Expr::VecLit(vec![var("x"), var("x")]))]),
+                    method(FnKind::Static, "pair", &["a", "x"], vec![ret(Expr::TupleLit(vec![var("a"), var("x")]))]),
+                ],
+            ),
+            var_stmt("b", invoke(var("Box"), "new", vec![num(0.0)])),
+            var_stmt("acc", Expr::VecLit(vec![])),
+            fn_stmt(func("named", &["e"], vec![ret(Expr::VecLit(vec![var("e")]))])),
+        ]
+    };
+    for (desc, pre, it, _is_str) in iterables(thorough) {
+        if desc.starts_with("range") && !["range 0..3", "range 2..-1", "range 1..1"].contains(&desc.as_str()) {
+            continue;
+        }
+        if desc.starts_with("string") && desc.len() > 14 {
+            continue;
+        }
+        let start = || invoke(it.clone(), "iter", vec![]);
+        let mut progs: Vec<Vec<Stmt>> = Vec::new();
+        for cb in [var("type"), var("named"), get(var("Box"), "twice"), get(var("b"), "wrap"), lambda_expr(&["e"], call(var("type"), vec![var("e")]))] {
+            progs.push(vec![print_stmt(invoke(invoke(start(), "map", vec![cb.clone()]), "collect", vec![]))]);
+            progs.push(vec![st(StmtKind::For("x".into(), invoke(start(), "map", vec![cb.clone()]), vec![print_stmt(var("x"))]))]);
+            progs.push(vec![print_stmt(invoke(invoke(invoke(start(), "map", vec![cb.clone()]), "map", vec![var("type")]), "collect", vec![]))]);
+        }
+        progs.push(vec![print_stmt(invoke(invoke(invoke(start(), "map", vec![get(var("Box"), "new")]), "map", vec![lambda_expr(&["o"], get(var("o"), "v"))]), "collect", vec![]))]);
+        progs.push(vec![expr_stmt(invoke(invoke(start(), "map", vec![get(var("acc"), "push")]), "collect", vec![])), print_stmt(var("acc"))]);
+        for cb in [var("type"), get(var("b"), "truthy"), var("named")] {
+            progs.push(vec![print_stmt(invoke(invoke(start(), "filter", vec![cb.clone()]), "collect", vec![]))]);
+            progs.push(vec![st(StmtKind::For("x".into(), invoke(start(), "filter", vec![cb]), vec![print_stmt(var("x"))]))]);
+        }
+        for cb in [get(var("Box"), "pair"), get(var("b"), "join")] {
+            progs.push(vec![print_stmt(invoke(start(), "reduce", vec![cb, Expr::Nil]))]);
+        }
+        for body in progs {
+            let mut main = pre.clone();
+            main.extend(decls());
+            main.extend(body);
+            out.push(Case::new("I8_every_kind_of_callable_as_a_callback", main));
+        }
+    }
+    out
+}
+
 fn i7() -> Vec<Case> {
     let mut out = Vec::new();
     let its: Vec<(Vec<Stmt>, Expr)> = iterables(false)
@@ -507,7 +566,7 @@ pub fn run(ctx: &Ctx) -> Report {
         DEEP.store(true, std::sync::atomic::Ordering::Relaxed);
     }
     let thorough = true;
-    let cases = i1(thorough).into_iter().chain(i1_extreme_ranges()).chain(i2(thorough)).chain(i3(thorough)).chain(i4()).chain(i5()).chain(i6()).chain(i7());
+    let cases = i1(thorough).into_iter().chain(i1_extreme_ranges()).chain(i2(thorough)).chain(i3(thorough)).chain(i4()).chain(i5()).chain(i6()).chain(i7()).chain(i8(thorough));
     let hooks = Hooks { attribute: &|_c, _m, _o, _mm| None, nontrivial: &|_c, m| m.out.len() >= 2 || matches!(m.outcome, Outcome::Uncaught(_)), fuel: 2_000_000 };
     let stats = mcheck::run(ctx, cases, &hooks);
     mcheck::fill_report(
